@@ -39,7 +39,7 @@ Section proc.
 
   Lemma proc_inv_step w s s' : wf s -> bal_inv s -> proc_inv s -> step_inv fx w s s' -> proc_inv s'.
   Proof.
-    intros Hwf Hbi Hpi [t a e ok a' os ob Ha Hst Hact Hh _ _ _ _ _ _ _ (Hph & _) _ _|Hact _ Hh _ _ Hrs|ts _ Hact _ Hh _ _ (Hph & _) _].
+    intros Hwf Hbi Hpi [t a e ok a' os ob Ha Hst Hact Hh _ _ _ _ _ _ _ (Hph & _) _ _ _|Hact _ Hh _ _ Hrs|ts _ Hact _ Hh _ _ (Hph & _) _].
     - destruct (Hwf t a Ha) as [Hid _].
       pose proof (bi_kind _ Hbi t a Ha) as Hko.
       assert (Hoth : forall t0 o l, t0 <> t -> obs_target o = t0 -> (forall x, x ∈ l -> x ∈ ob) -> nob o l = 0).
